@@ -53,6 +53,7 @@ M = [
  ("M39-config-wrong-family-accepted", "config/config.go", "(ver == protocolV6 && ip4 != nil) || (ver == protocolV4 && ip4 == nil)", "(ver == protocolV4 && ip4 == nil)", ["C18"]),
  ("M41-serve4-one-shared-buffer", "server/handle.go", "func (l *listener4) Serve() error {\n\tlog.Printf(\"Listen %s\", l.LocalAddr())\n\tfor {\n\t\tb := *bufpool.Get().(*[]byte)\n", "func (l *listener4) Serve() error {\n\tlog.Printf(\"Listen %s\", l.LocalAddr())\n\tb := *bufpool.Get().(*[]byte)\n\tfor {\n", ["C16"]),
  ("M42-serve6-no-reslice", "server/handle.go", "func (l *listener6) Serve() error {\n\tlog.Printf(\"Listen %s\", l.LocalAddr())\n\tfor {\n\t\tb := *bufpool.Get().(*[]byte)\n\t\tb = b[:MaxDatagram] //Reslice to max capacity in case the buffer in pool was resliced smaller\n", "func (l *listener6) Serve() error {\n\tlog.Printf(\"Listen %s\", l.LocalAddr())\n\tfor {\n\t\tb := *bufpool.Get().(*[]byte)\n", ["C16"]),
+ ("M43-start-second-listener-no-chain", "server/serve.go", "\t\t\tl4.handlers = handlers4\n", "\t\t\tif len(srv.listeners) == 0 || config.Server6 != nil && len(srv.listeners) == len(config.Server6.Addresses) {\n\t\t\t\tl4.handlers = handlers4\n\t\t\t}\n", ["C13"]),
  ("M40-addprefixes-carry-lost", "plugins/allocators/ipcalc.go", "\tiph, carry = bits.Add64(offh, iph, carry)", "\tiph, carry = bits.Add64(offh, iph, 0)", ["C20", "C05"]),
 ]
 
